@@ -194,6 +194,12 @@ pub fn gen_pred(rng: &mut Prng, k: &Knobs, indim: usize, earlier: &mut Vec<(Vec<
         if k.float_regime && rng.chance(1, 10) {
             // a threshold far from the origin (65536 = 2^16 keeps the mantissa short)
             b *= 65536.0;
+        } else if !k.float_regime && rng.chance(1, 24) {
+            // exact regime: a region millions of units away from the origin (2^22; still an exact
+            // dyadic below 2^24, so sums stay exact; such trees are not offered to multiplying
+            // operations). The float regime judges FAT regions inside |x| <= 1e4 only, this is the
+            // place where far-away regions are covered.
+            b *= 4194304.0;
         }
         (a, b)
     };
@@ -253,6 +259,7 @@ pub fn gen_literal(rng: &mut Prng, k: &Knobs, in_dim: usize, out_dim: usize) -> 
     let mut frontier: Vec<(usize, usize)> = vec![(0, 0)];
     while let Some((pos, depth)) = frontier.pop() {
         let mut created = 0;
+        let mut sibling_terminal: Option<AffLit> = None;
         for label in 0..2 {
             let missing = rng.chance(k.partial_pm / 2, 1000);
             if missing && !(label == 1 && created == 0) {
@@ -265,7 +272,17 @@ pub fn gen_literal(rng: &mut Prng, k: &Knobs, in_dim: usize, out_dim: usize) -> 
                 nodes.push(NodeLit { parent: Some(pos), label, aff: pred_lit(in_dim, &p) });
                 frontier.push((nodes.len() - 1, depth + 1));
             } else {
-                nodes.push(NodeLit { parent: Some(pos), label, aff: gen_aff(rng, k, in_dim, out_dim) });
+                let mut aff = gen_aff(rng, k, in_dim, out_dim);
+                // equal sibling terminals now and then: `reduce` only does something on those
+                if let Some(sib) = &sibling_terminal {
+                    if rng.chance(1, 4) {
+                        aff = sib.clone();
+                    }
+                }
+                if label == 0 {
+                    sibling_terminal = Some(aff.clone());
+                }
+                nodes.push(NodeLit { parent: Some(pos), label, aff });
             }
         }
     }
